@@ -39,8 +39,7 @@ def cdr_taint(fn):
             if l in tainted:
                 return tainted[l]
             # direct field path .inner .1
-            ps = op["pl"]["p"]
-            if _is_cdr_field_path(ps):
+            if _is_cdr_place(fn, op["pl"]):
                 return ("field", l)
         return None
 
@@ -60,7 +59,7 @@ def cdr_taint(fn):
                     src = op_taint(rv["op"])
                 elif k in ("ref", "rawptr"):
                     l = rv["pl"]["l"]
-                    if _is_cdr_field_path(rv["pl"]["p"]):
+                    if _is_cdr_place(fn, rv["pl"]):
                         src = ("field", l)
                     elif l in tainted and not _projects_car(rv["pl"]["p"]):
                         src = tainted[l]
@@ -89,6 +88,26 @@ def cdr_taint(fn):
                     tainted[dst] = src
                     changed = True
     return tainted
+
+
+PAIR_TYPES = ("(value::Value, value::Value)", "(lexpr::Value, lexpr::Value)")
+META_TYPES = ("[datum::SpanInfo; 2]", "[lexpr::datum::SpanInfo; 2]")
+
+
+def _is_cdr_place(fn, pl):
+    """Type-aware: the second component of the (car, cdr) pair / the [car_info, cdr_info] array, however
+    the Box around it was dereferenced (rustc lowers Box derefs into raw-pointer locals)."""
+    if _is_cdr_field_path(pl["p"]):
+        return True
+    ty = fn.local_ty(pl["l"])
+    for e in pl["p"]:
+        if not isinstance(e, dict):
+            continue
+        if any(t in ty for t in META_TYPES) and (e.get("ci") == 1 and not e.get("fe")):
+            return True
+        if any(t in ty for t in PAIR_TYPES) and e.get("f") == 1 and e.get("n") in (None, "1") and "adt" not in e:
+            return True
+    return False
 
 
 def _is_cdr_field_path(ps):
